@@ -141,7 +141,7 @@ def sources(prog, sc, n, mode="raw", depth=0, elemwise=False):
         return [s for v in var_values(sc, n[1]) for s in sources(prog, sc, v, mode, depth + 1)]
     if k == "agg":
         lab = n[1].split("::")[-1]
-        if lab == "Some" and len(n[3]) == 1:
+        if lab in ("Some", "Ok") and len(n[3]) == 1:
             return sources(prog, sc, n[3][0], mode, depth + 1)
         if lab == "None":
             return [Src("none", "None", mode)]
@@ -193,6 +193,8 @@ def sources(prog, sc, n, mode="raw", depth=0, elemwise=False):
             return [Src("other", "get on %s" % show(m)[:60], mode)]
         if nm == "default":
             return [Src("nil", "Default::default()", mode)]
+        if nm == "from_residual":
+            return []      # the early return of `?`: an error is propagated, no element is produced on this path
         if nm in ("with_capacity", "new") and ("Vec" in n[1] or "vec::" in n[1]):
             return []      # empty collection: contributes no element
         return [Src("other", "%s(..)" % nm, mode)]
@@ -221,7 +223,7 @@ def literals(prog, prefix="bemodel::convert::from_ctehexml::", adt_prefix="bemod
         if not f.path.startswith(prefix) or f.root != f.id:
             continue
         root = Scope(prog, f)
-        for sc in root.all_scopes():
+        for sc in root.local_scopes():
             for b, i, s in sc.body.statements():
                 if s["s"] == "assign" and s["rv"]["r"] == "agg" and s["rv"].get("adt", "").startswith(adt_prefix):
                     out.append((sc, s["rv"]["adt"].split("::")[-1], sc.rvalue(s["rv"]), sc.fn.loc(s.get("ln"))))
@@ -370,6 +372,71 @@ def run(ctx):
             ctx.violation("c02.idmaps", key, "no IdMaps accessor resolves names among %s only: links to model.%s cannot be checked for kind" % (want.replace("\\", ""), target), idmaps_new.loc())
     ctx.floor("c02.idmaps", "IdMaps tables", len(tables), 8)
 
+    # D2' ids of generated elements: whatever tells two sibling elements apart in their *name* must also reach their id.  A literal whose name
+    # depends on a per-iteration quantity (the side of a fin, an index) that its id does not hash gives two elements of one collection the same id
+    # as soon as the remaining inputs coincide.
+    def var_leaves(node):
+        out = set()
+        for x in walk(node):
+            if x[0] in ("proj", "elem", "arg", "var", "upvar", "named"):
+                ln_ = leaf_name(x)
+                if ln_:
+                    out.add(ln_)
+        # keep maximal (most specific) names only
+        return {l for l in out if not any(o != l and o.startswith(l) and o[len(l):len(l) + 1] in (".", "[", "@") for o in out)}
+    nuniq = 0
+    for (sc, t, n, loc) in lits:
+        if "id" not in n[2] or "name" not in n[2]:
+            continue
+        idn = strip(n[3][n[2].index("id")])
+        hashed = None
+        for x in walk(idn):
+            idf = id_function(prog, x)
+            if idf:
+                hashed = strip(x[2][-1])
+        if hashed is None:
+            continue
+        nuniq += 1
+        idl = var_leaves(hashed)
+        namel = var_leaves(strip(n[3][n[2].index("name")]))
+        def generated_list(base):
+            """is `base` a local of this function (or an enclosing one) defined as an array / vec / tuple literal - a list the code itself makes up,
+            as opposed to a collection of source elements (where one element yields one literal and key and value identify the same entry)?"""
+            if base.startswith(("array{", "vec{", "tuple{")):
+                return True
+            base = base.split(".")[0]
+            s_ = sc
+            while s_ is not None:
+                for l_, nm_ in s_.body.names.items():
+                    if nm_ == base:
+                        for d_ in s_.body.defs().get(l_, []):
+                            if d_[0] == "st":
+                                v_ = strip(s_.eb.rvalue(d_[3]["rv"]))
+                                if v_[0] == "agg" and v_[1] in ("array", "vec", "tuple"):
+                                    return True
+                        return False
+                s_ = s_.parent
+            return False
+
+        def covered(l):
+            for i in idl:
+                if l == i or l.startswith(i + ".") or l.startswith(i + "[") or l.startswith(i + "@") or i.startswith(l):
+                    return True
+                # key and value of one entry of a source collection
+                if "[]" in l and "[]" in i and l.split("[]")[0] == i.split("[]")[0] and not generated_list(l.split("[]")[0]):
+                    return True
+            return False
+        missing = sorted(l for l in namel if not covered(l))
+        key = "c02.unique|%s|%s" % (t, prog.display(sc.fn).split("::")[-1] if "{closure" not in prog.display(sc.fn) else prog.root_of(sc.fn).path.split("::")[-1])
+        k2, c_ = key, 1
+        while any(i.key == k2 for i in ctx.instances):
+            c_ += 1
+            k2 = "%s|%d" % (key, c_)
+        if missing:
+            ctx.violation("c02.unique", k2, "the name of this %s depends on %s but its id hashes only %s: two elements generated for the same source element that differ "
+                          "only in %s get the same id (ids are not unique within the collection)" % (t, missing, sorted(idl), missing), loc)
+        else:
+            ctx.ok("c02.unique", k2, "everything the name depends on (%s) also reaches the id" % sorted(namel), loc)
     # D2 element ids
     ID_OF = {"Space": "spaces", "Wall": "walls", "WallCons": "cons.wallcons", "WinCons": "cons.wincons", "Material": "cons.materials", "SpaceLoads": "loads",
              "Thermostat": "thermostats", "Schedule": "schedules.year", "ScheduleWeek": "schedules.week", "ScheduleDay": "schedules.day"}
